@@ -18,7 +18,7 @@ vars == << store, hist >>
 View == store
 
 Slots == 1..NSlots
-Vals == {"E", "Z1", "Z2", "P", "Pb", "Ph", "Pm", "S", "Sb", "S2", "I"}
+Vals == {"E", "Z1", "Z2", "P", "Pb", "Ph", "Pi", "Pm", "S", "Sb", "S2", "I"}
 
 Base == [dev |-> 7, st |-> 3, ver |-> 2, seq |-> 11, ts |-> << 1, 2, 3, 4, 5, 6, 7, 8 >>, ifid |-> << 0, 0, 1, 2 >>, vid |-> 77,
          fl |-> 33, seg |-> 0]
@@ -30,6 +30,7 @@ Desc(v) ==
       [] v = "Pb" -> Base @@ [mt |-> 1, pt |-> 255, pl |-> << 10, 21, 30 >>]
       [] v = "Pm" -> Base @@ [mt |-> 2, pt |-> 255, pl |-> << 10, 20, 30 >>]          \* same payload type byte and bytes, another message type
       [] v = "Ph" -> [Base EXCEPT !.ts = << 1, 2, 3, 4, 5, 6, 7, 9 >>] @@ [mt |-> 1, pt |-> 255, pl |-> << 10, 20, 30 >>]
+      [] v = "Pi" -> [Base EXCEPT !.ifid = << 0, 0, 1, 3 >>] @@ [mt |-> 1, pt |-> 255, pl |-> << 10, 20, 30 >>]     \* the interface id alone differs
       [] v = "I"  -> Base @@ [mt |-> 0, pt |-> 0, pl |-> << 0, 0, 0 >>]          \* payload of type invalid, as the decoder returns for a rejected message
       [] v = "S"  -> Base @@ [mt |-> 3, pt |-> 255, pl |-> << 4 >>]                  \* payloads of one byte
       [] v = "Sb" -> Base @@ [mt |-> 3, pt |-> 255, pl |-> << 5 >>]
